@@ -2,6 +2,7 @@
 import re
 from . import cfg, guards, e2, circ
 from . import terms as T
+from . import lc
 from . import pat as P
 from .pb import Ob
 
@@ -79,6 +80,16 @@ def analyse25(ck):
         okd = [bi for bi, lst in guards._zero_defs(mv.body).items() if "ok" in lst]
         ok = chunks8 and bool(okd)
     ob.add({"C25"}, ok, "CMP", "digest/canonical-limbs", "BytesDigest::try_from rejects (Err) when any 8-byte little-endian chunk is >= p, over value.chunks(8)", mv.loc0, [(T.show(x["cond"])[:100], x["fail_when"]) for x in mv.gt])
+    # a BytesDigest value exists only through the canonicality check: the struct literal appears in try_from (after the limb check),
+    # in Default (all zero) and in new_unchecked; new_unchecked is called only where the bytes were validated before
+    lit = sorted(set(b.path for b in prog.production_bodies() for blk in b.blocks for st in blk["s"]
+                     if (st.get("r") or {}).get("k") == "agg" and st["r"]["ak"].get("t") == "adt" and st["r"]["ak"]["adt"].endswith("::BytesDigest")))
+    want_lit = sorted(["<" + INPUTS + "::BytesDigest as core::default::Default>::default", INPUTS + "::BytesDigest::new_unchecked",
+                       "<" + INPUTS + "::BytesDigest as core::convert::TryFrom<[u8; DIGEST_BYTES_LEN]>>::try_from"])
+    ob.add({"C25", "C24"}, lit == want_lit, "WMW", "digest/literal-sites", "the BytesDigest struct literal is written only in try_from (after the limb check), Default and new_unchecked", None, lit)
+    unc = sorted(set(e2.root_of(prog, bb).path for bb, _, t in prog.call_sites(r"BytesDigest::new_unchecked$")))
+    ob.add({"C25", "C24"}, unc == [CIRC + "::sensitive::Secret::expose_digest"], "WMC", "digest/new_unchecked-callers",
+           "BytesDigest::new_unchecked is called only by Secret::expose_digest (bytes validated by try_from when the Secret was built): every parser and decoder goes through the checking try_from", None, unc)
     # modulus copies agree
     go = prog.consts.get(INPUTS + "::GOLDILOCKS_ORDER", {}).get("v")
     gm = prog.consts.get(COMMON + "::zk_merkle::GOLDILOCKS_MODULUS", {}).get("v")
@@ -258,7 +269,230 @@ def analyse27(ck):
         ok = len(g1) == 1 and len(g2) == 1 and len(g3) == 1 and bool(hs) and all(fv.dom(fv.ok_succ(g), bb) for g in g1 + g2 + g3 for bb, _ in hs)
         ob.add({"C27"}, ok, "CMP+DOM", "from_unsorted/guards/" + crate, "from_unsorted rejects depth > MAX_DEPTH, non-canonical leaf, non-canonical sibling (Err) before allocating or hashing", fv.loc0,
                [(T.show(x["cond"], maxdepth=4)[:100], x["fail_when"]) for x in fv.gt][:6])
+        _from_unsorted_level(ob, prog, fv, crate)
     return ob
+
+
+def _closure_ids(prog, body, seen=None):
+    """bodies of the closures created (transitively) in a body"""
+    seen = set() if seen is None else seen
+    out = []
+    for blk in body.blocks:
+        for st in blk["s"]:
+            r = st.get("r") or {}
+            if r.get("k") == "agg" and r["ak"].get("t") == "closure" and r["ak"]["id"] not in seen:
+                seen.add(r["ak"]["id"])
+                cb = prog.bodies.get(r["ak"]["id"])
+                if cb is not None:
+                    out.append(cb)
+                    out += _closure_ids(prog, cb, seen)
+    return out
+
+
+def _op_local(o):
+    pl = isinstance(o, dict) and (o.get("c") or o.get("m"))
+    return pl["l"] if pl else None
+
+
+def _place_locals(pl):
+    out = [pl["l"]]
+    for pr in pl["p"]:
+        if isinstance(pr, dict) and "i" in pr and isinstance(pr["i"], int):
+            out.append(pr["i"])
+    return out
+
+
+def _backward_locals(body, start, stop):
+    """locals a value may be computed from (flow-insensitive backward closure over assignments, projection writes and call results),
+    not expanding the locals in `stop`"""
+    defs = {}
+    for blk in body.blocks:
+        if blk["cleanup"]:
+            continue
+        for st in blk["s"]:
+            d, r = st.get("d"), st.get("r")
+            if not d or not r:
+                continue
+            src = []
+            for k in ("a", "b"):
+                l_ = _op_local(r.get(k))
+                if l_ is not None:
+                    src.append(l_)
+            if isinstance(r.get("p"), dict):
+                src += _place_locals(r["p"])
+            for o in r.get("ops", []) or []:
+                l_ = _op_local(o)
+                if l_ is not None:
+                    src.append(l_)
+            for k in ("a", "b"):
+                pl = isinstance(r.get(k), dict) and (r[k].get("c") or r[k].get("m"))
+                if pl:
+                    src += _place_locals(pl)[1:]
+            defs.setdefault(d["l"], set()).update(src)
+        t = blk["t"]
+        if t["k"] == "call" and t.get("dest"):
+            defs.setdefault(t["dest"]["l"], set()).update(l_ for l_ in (_op_local(a) for a in t["args"]) if l_ is not None)
+    seen, st = set(), [start]
+    while st:
+        l_ = st.pop()
+        if l_ is None or l_ in seen:
+            continue
+        seen.add(l_)
+        if l_ in stop:
+            continue
+        st += list(defs.get(l_, ()))
+    return seen
+
+
+def _debug_assert_blocks(body):
+    """blocks that exist only to evaluate a `debug_assert*!`: control dependent on the `if cfg!(debug_assertions)` constant branch that
+    leads to a panic raised by that macro"""
+    cd = cfg.control_deps_closed(body)
+    region = set()
+    for p, t in body.calls():
+        if not any(str(m).startswith("debug_assert") for m in t.get("macros", ())):
+            continue
+        for (a, b) in cd.get(p, ()):
+            ta = body.blocks[a]["t"]
+            if ta["k"] != "switch":
+                continue
+            d = ta["d"]
+            const = "k" in d
+            l_ = _op_local(d)
+            if not const and l_ is not None:
+                const = any(st.get("d", {}).get("l") == l_ and not st["d"]["p"] and (st.get("r") or {}).get("k") == "use" and "k" in (st["r"].get("a") or {}) for st in body.blocks[a]["s"])
+            if const:
+                region |= set(x for x, deps in cd.items() if (a, b) in deps)
+    return region
+
+
+def _from_unsorted_level(ob, prog, fv, crate):
+    """the per-level step of `from_unsorted` (common and circuit copies): necessary structure of "positions are the running hash's
+    sorted rank and the proof verifies".  Form-independent part, always decided:
+      (a) the node [current, s0, s1, s2] is sorted exactly once per level, before it is read;
+      (b) the pushed position is `position(node, |h| h == current)`;
+      (c) the running hash becomes hash_node_presorted(node), on every level;
+      (d) the siblings pushed for the level are taken from the node (not from the raw input), and the ONLY comparison of hash
+          values in the function is the rank predicate of (b) — the three siblings are chosen by index (all but `pos`), never by
+          value (a sibling equal to the running hash must stay);
+    form-specific part, decided when the selection is the index-skipping copy loop (any other form: (a)-(d) only, recorded)."""
+    body, fr = fv.body, fv.fr
+    ev = fr.ev
+    effs = fv.effects
+    tag = "from_unsorted/level/" + crate
+    U = None
+    for i in range(1, body.argc + 1):
+        if re.search(r"Vec<\[\[u8; 32\]; 3\]", body.local_ty(i) or ""):
+            U = fv.param(i)
+    def unrec(t):
+        """the running hash seen from inside its own recurrence is ("rec", key): compare modulo that"""
+        if isinstance(t, tuple) and t and t[0] == "phi":
+            return ("rec", t[1])
+        if isinstance(t, tuple):
+            return tuple(unrec(x) for x in t)
+        return t
+    def in_level(e):
+        """control context below the level loop (empty = once per level, unconditionally)"""
+        for k, c in enumerate(e.ctrl):
+            if c[0] == "loop" and tuple(c[2]) == ("1",) and lc.strip_adaptors(P.norm(c[1])) == U:
+                return list(e.ctrl[k + 1:])
+        return None
+    srt = [e for e in effs if e.raw.get("name") in ("sort", "sort_unstable")]
+    pos = [e for e in effs if e.raw.get("name") == "position"]
+    hn = [e for e in effs if e.raw.get("name") == "hash_node_presorted"]
+    push = [e for e in effs if e.raw.get("name") == "push"]
+    det = {"sort": len(srt), "position": len(pos), "hash_node_presorted": len(hn), "push": len(push)}
+    if U is None or len(srt) != 1 or len(pos) != 1 or len(hn) != 1 or len(push) != 2:
+        ob.add({"C27"}, False, "TERM", tag, "per level: one sort of the 4-node, one rank lookup, one node hash, one position push and one sibling push", fv.loc0, det)
+        return
+    A = unrec(P.norm(srt[0].args[0]))
+    okA = isinstance(A, tuple) and A[0] == "array" and len(A[1]) == 4
+    cur = [m for m in (A[1] if okA else ()) if isinstance(m, tuple) and m and m[0] == "rec"]
+    sib = [m for m in (A[1] if okA else ()) if not (isinstance(m, tuple) and m and m[0] == "rec")]
+    okA = okA and len(cur) == 1 and sorted(sib, key=repr) == sorted([("idx", ("elem", U), ("c", k, None)) for k in range(3)], key=repr)
+    a_ok = okA and in_level(srt[0]) == [] and all(cfg.dominates(body, srt[0].bb, e.bb) and e.bb != srt[0].bb for e in pos + hn)
+    # (b)
+    b_ok = False
+    ppush = [e for e in push if P.call_name(P.norm(e.args[1])) and P.call_name(P.norm(e.args[1])).endswith("::position")]
+    if okA and len(ppush) == 1 and in_level(ppush[0]) == [] and in_level(pos[0]) == []:
+        pt = P.norm(ppush[0].args[1])
+        H = ("sym", "H")
+        cr = unrec(P.norm(fr.closure_ret(pt[4][1], [H], site_hint=pos[0].site))) if len(pt[4]) == 2 else None
+        b_ok = unrec(lc.strip_adaptors(P.norm(pt[4][0]))) == A and cr in (("bin", "Eq", H, cur[0]), ("bin", "Eq", cur[0], H))
+    # (c)
+    c_ok = False
+    if okA and in_level(hn[0]) == []:
+        ph = [s_ for s_ in T.walk(P.norm(srt[0].args[0])) if isinstance(s_, tuple) and s_ and s_[0] == "phi" and s_[1] == cur[0][1]]
+        if ph:
+            mem = [P.norm(m) for m in ph[0][2]]
+            step = [m for m in mem if P.call_name(m) and P.call_name(m).endswith("hash_node_presorted")]
+            init = [m for m in mem if isinstance(m, tuple) and m and m[0] == "param"]
+            c_ok = len(mem) == 2 and len(step) == 1 and len(init) == 1 and unrec(P.norm(step[0][4][0])) == A and unrec(P.norm(hn[0].args[0])) == A
+    # (d)
+    spush = [e for e in push if e not in ppush]
+    d_ok = False
+    cmps = []
+    dbg = _debug_assert_blocks(body)
+    skip_closures = set()
+    for bi in dbg:
+        for st in body.blocks[bi]["s"]:
+            r = st.get("r") or {}
+            if r.get("k") == "agg" and r["ak"].get("t") == "closure":
+                skip_closures.add(r["ak"]["id"])
+    for b_ in [body] + [c_ for c_ in _closure_ids(prog, body) if c_.id not in skip_closures]:
+        for bb, t in b_.calls():
+            if b_ is body and bb in dbg:
+                continue   # inside a debug_assert!: documents an invariant, selects nothing
+            if t.get("name") in ("eq", "ne", "cmp", "partial_cmp", "lt", "le", "gt", "ge", "contains", "starts_with", "ends_with") and re.search(r"\[u8(; 32)?\]", t.get("self_ty") or ""):
+                cmps.append((b_.path.rsplit("::", 2)[-1] if b_.kind == "Closure" else b_.name, t.get("name"), t.get("self_ty")))
+    V = None
+    if okA and len(spush) == 1 and in_level(spush[0]) == []:
+        V = unrec(P.norm(spush[0].args[1]))
+        # provenance of the pushed siblings on the MIR: going backwards from the pushed operand and stopping at the sorted node, the raw
+        # input is not reached (indexing a literal array folds in the term view, so this is decided on locals, not on terms)
+        S = _root_local(body, srt[0].raw["args"][0])
+        ui = U[2]
+        reach = _backward_locals(body, _op_local(spush[0].raw["args"][1]), {S})
+        d_ok = S is not None and ui not in reach and len(cmps) == 1 and cmps[0][1] == "eq"
+    ob.add({"C27"}, a_ok and b_ok and c_ok and d_ok, "TERM", tag,
+           "per level: node = [current, s0, s1, s2] sorted once before use; position pushed = rank of current in it; current := hash_node_presorted(node); siblings pushed come from the node and "
+           "are chosen without comparing hash values (the only value comparison is the rank predicate)", srt[0].loc,
+           {"sorted-node-first": a_ok, "rank": b_ok, "node-hash-step": c_ok, "siblings-by-index": d_ok, "value comparisons": cmps})
+    # form-specific: the index-skipping copy loop
+    fs = None
+    if V is not None and isinstance(V, tuple) and V[0] == "upd" and len(V[3]) == 1 and lc.known_len(V) == 3:
+        (wproj, wval), = V[3]
+        ctrls = T.upd_write_ctrl(ev, spush[0].args[1] if isinstance(spush[0].args[1], tuple) and spush[0].args[1][0] == "upd" else P.norm(spush[0].args[1]))
+        K = wproj[0][1] if len(wproj) == 1 and wproj[0][0] == "i" else None
+        if K is not None and len(ctrls) == 1 and isinstance(K, tuple) and K[0] == "rec":
+            c = list(ctrls[0])
+            # below the level loop: the enumerate loop over the node, then exactly `index != pos`
+            lvl = [k for k, g in enumerate(c) if g[0] == "loop" and lc.strip_adaptors(P.norm(g[1])) == U]
+            tail = c[lvl[0] + 1:] if lvl else None
+            ok = (tail is not None and len(tail) == 2 and tail[0][0] == "loop" and unrec(lc.strip_adaptors(P.norm(tail[0][1]))) == A and tail[1][0] == "case")
+            if ok:
+                cond, val = unrec(P.norm(tail[1][1])), tuple(tail[1][2])
+                pt = unrec(P.norm(ppush[0].args[1])) if len(ppush) == 1 else None
+                ix = ("index", A)
+                ok = ((cond in (("bin", "Ne", ix, pt), ("bin", "Ne", pt, ix)) and val == ("else",)) or (cond in (("bin", "Eq", ix, pt), ("bin", "Eq", pt, ix)) and val == ("0",)))
+                ok = ok and unrec(P.norm(wval)) == ("elem", A)
+                # the output cursor starts at 0 for every level and advances by one exactly when an element is copied
+                kphi = [s_ for s_ in T.walk(P.norm(spush[0].args[1])) if isinstance(s_, tuple) and s_ and s_[0] == "phi" and s_[1] == K[1]]
+                if ok and kphi:
+                    mem = [m[1] if (isinstance(m, tuple) and m and m[0] == "guarded") else m for m in kphi[0][2]]
+                    inc = [m for m in mem if m == ("bin", "Add", ("rec", K[1]), ("c", 1, None))]
+                    ini = [m for m in mem if P.const_of(m) == 0]
+                    dc = T.phi_def_ctrl(ev, kphi[0])
+                    same = [x for x in dc if [(g[0], g[3]) for g in x] == [(g[0], g[3]) for g in c]]
+                    ok = len(mem) == 2 and len(inc) == 1 and len(ini) == 1 and len(same) == 1
+                else:
+                    ok = False
+            fs = ok
+    if fs is None:
+        ob.add({"C27"}, True, "TERM", "from_unsorted/selection/" + crate, "sibling selection is not the index-skipping copy loop: only the form-independent conditions above were decided for it", spush[0].loc if spush else fv.loc0)
+    else:
+        ob.add({"C27"}, fs, "TERM", "from_unsorted/selection/" + crate,
+               "siblings = the node's elements with index != pos, in order: copy loop over enumerate(node) guarded by exactly `i != pos`, output cursor 0, +1 per copied element", spush[0].loc)
 
 
 def _root_local(body, operand):
